@@ -1,6 +1,6 @@
 (** C09 — executable model of [operation_type_printer/type_printer.rs::get_type_for_variable_definitions],
     of how [OperationTypePrinterVisitor] uses it for `type <Op>Variables = …`, and of the option
-    plumbing [OperationTypePrinterOptions::from_config].  The `__OperationInput` namespace the
+    plumbing [OperationTypePrinterOptions::from_config] (as of /repo commit 8fa8876 it reads the option).  The `__OperationInput` namespace the
     Variables type refers to is C10's model ([C10.Model.namespace_members _ _ OpIn]).
     Definitions only. *)
 From V Require Import Base.Util Gql.Ast Writer.Wop Ts.TsType Ts.TsDen C10.Model.
@@ -25,6 +25,10 @@ Definition variables_type (o : oopts) (vds : list vardef) : tstype :=
 Definition operation_variables_type (o : oopts) (v : option vardefs) : tstype :=
   match v with None => TObject [] | Some v => variables_type o (vds_list v) end.
 
-(** [OperationTypePrinterOptions::from_config]: [generate.type.allowUndefinedAsOptionalInput] is NOT
-    read (the field keeps its default [true]); [schema_root_namespace] keeps its default *)
-Definition oopts_from_config (config_allow_undefined : bool) : oopts := mkOOpts (s "Schema") true.
+(** [OperationTypePrinterOptions::from_config]: [allow_undefined_as_optional_input] is the configured
+    [generate.type.allowUndefinedAsOptionalInput] ([None] = key absent: [GenerateTypeConfig::default]
+    gives [true]); [schema_root_namespace] keeps its default *)
+Definition config_allow_undefined (configured : option bool) : bool :=
+  match configured with Some b => b | None => true end.
+Definition oopts_from_config (configured : option bool) : oopts :=
+  mkOOpts (s "Schema") (config_allow_undefined configured).
